@@ -21,7 +21,7 @@ TracePrefix ==
 TraceRx ==
   /\ IsEvent("rx")
   /\ LET e == Rec[l] IN
-     IF ToSet(e.hits) = {s \in ProbeSet : Matches(e.ic, e.p, s)} THEN TRUE ELSE Report("NOTE", "model_regex_semantics_differs")
+     IF ToSet(e.hits) = {s \in ToSet(e.probes) : Matches(e.ic, e.p, s)} THEN TRUE ELSE Report("NOTE", "model_regex_semantics_differs")
 TracePanic == IsEvent("panic") /\ Report("VERDICT", "panic")
 TraceNext == TracePrefix \/ TraceRx \/ TracePanic
 TraceSpec == l = 1 /\ [][TraceNext]_l
